@@ -20,7 +20,7 @@ RULE = ("union of C13 trees and C15 pattern sets: directory trees x recursive on
         "model is unambiguous the indexed directories also equal the model's processed directories. Non-trivial: >=1 "
         "subdirectory that is excluded / auto-excluded / empty after exclusion and >=1 that is kept; distinct by SHA-1 "
         "of the case")
-RULE_MORE = 'output locations of C13; an earlier run of the same command line without -r or with another prefix into the same output; symlinked subdirectory as in C13; at least two subdirectories at the top.'
+RULE_MORE = 'output locations of C13; an earlier run of the same command line without -r or with another prefix into the same output; symlinked subdirectory as in C13; at least two subdirectories at the top. Later: input given through a differently named symlink; file links.'
 ASSUMPTIONS = ["default module_path_separator", "the input directory itself is not excluded and holds a .cmake file when "
                "auto-exclusion is on"]
 BUDGET = {"quick": {"shards": 8, "examples": 200}, "thorough": {"shards": 16, "examples": 2500}}
